@@ -45,7 +45,8 @@ def schema():
     return fields.Schema(k=fields.ID(stored=True, unique=True),
                          t=fields.TEXT(analyzer=analysis.StandardAnalyzer(stoplist=None, minsize=1), phrase=True),
                          g=fields.KEYWORD(scorable=True), n=fields.NUMERIC(int, bits=32, signed=True, sortable=True),
-                         fl=fields.NUMERIC(float), d=fields.DATETIME(), b=fields.BOOLEAN(), ng=fields.NGRAMWORDS(minsize=2, maxsize=3))
+                         fl=fields.NUMERIC(float), d=fields.DATETIME(), b=fields.BOOLEAN(), ng=fields.NGRAMWORDS(minsize=2, maxsize=3),
+                         pr=fields.NUMERIC(int, decimal_places=2))
 
 
 def _add(w, d):
@@ -120,7 +121,7 @@ def parsers():
 
 
 ATOMS = [u"alfa", u"bravo", u" ", u" AND ", u" OR ", u"NOT ", u" ANDNOT ", u" REQUIRE ", u"(", u")", u'"', u"'", u":", u"^", u"~",
-         u"[", u"]", u"{", u" TO ", u"*", u"?", u"t:", u"n:", u"d:", u"b:", u"2", u"-", u"<", u">=", u"~2", u"#f(", u"\\",
+         u"[", u"]", u"{", u" TO ", u"*", u"?", u"t:", u"n:", u"d:", u"b:", u"2", u"0000", u"pr:", u"-", u"<", u">=", u"~2", u"#f(", u"\\",
          u" ANDMAYBE ", u"}", u"fl:", u"ng:", u"zz:", u"+", u"^2", u"2011", u"é\U0001F600", u".", u"/", u"*:*", u"r\"", u"AND", u"OR", u"NOT", u"TO", u"jan", u",",
          u"^x", u"~/", u"text:", u"special:", u"<<", u">>", u"true", u"now"]
 NA = len(ATOMS)
@@ -155,7 +156,7 @@ def total(text):
 
 LQ = 3
 NJ = 12
-NAQ = tiered(32, 45)      # the quick tier draws from the first 32 atoms, the thorough tier from the first 45 (all 59 are swept concretely in development)
+NAQ = tiered(34, 47)      # the quick tier draws from the first 34 atoms, the thorough tier from the first 47 (all 61 are swept concretely in development)
 
 
 def _mk_total(j):
